@@ -724,6 +724,15 @@ func ruleNoPartialLine(c *Ctx) {
 	}
 	rd := reads[0]
 	errNonNil := describe(rd) + "#1 != nil"
+	// every line read is handed out: the read is not repeated inside readLine (a loop that skips some lines — empty
+	// ones, say — swallows the empty response to a SASL challenge and takes the next command for the response)
+	again := false
+	for _, sc := range rd.Block().Succs {
+		if sc == rd.Block() || reachableFrom(sc, nil)[rd.Block()] {
+			again = true
+		}
+	}
+	R.Ob("(*Conn).readLine/one read per call, no line skipped", c.P.InstrPos(rd), !again, "the line read of readLine lies in a loop: a line that was read can be dropped and another read in its place (an empty line is the empty SASL response and the command loop's 500; skipping it desynchronises the dialogue)")
 	n := 0
 	allInstrs(f, func(in ssa.Instruction) {
 		r, ok := in.(*ssa.Return)
